@@ -1468,6 +1468,12 @@ class Server:
                         handler_callback,
                         port,
                     )
+                    if connection.future.passive_server.done():
+                        # a pipelined PASV/EPSV of this session opened its
+                        # listener meanwhile: one listener per session
+                        passive_server.close()
+                        self.available_data_ports.put_nowait((priority, port))
+                        return connection.passive_server
                     connection.passive_server_port = port
                     break
                 except asyncio.QueueEmpty:
@@ -1485,6 +1491,9 @@ class Server:
                 handler_callback,
                 connection.passive_server_port,
             )
+            if connection.future.passive_server.done():
+                passive_server.close()
+                return connection.passive_server
         return passive_server
 
     @ConnectionConditions(ConnectionConditions.login_required)
